@@ -385,7 +385,7 @@ int main(int argc, char** argv) {
     bool hot = a.num("hot", 1) != 0;
     int fixed_conc = (int)a.num("conc", 0);
     long maxn = a.num("maxn", 2500);
-    std::vector<int> ids = { 110, 111, 112, 113, 110, 112, 113, 8, 10, 3, 40 };
+    std::vector<int> ids = { 110, 111, 112, 113, 114, 115, 116, 117, 110, 112, 113, 114, 116, 117, 8, 10, 3, 40 };
     Rng top(mix(R.seed, 0xC07));
     tbb::global_control gc(tbb::global_control::max_allowed_parallelism, 16);
     set_point_observer(observer);
